@@ -9,8 +9,27 @@ import copy
 import re
 
 
+class Runaway(Exception):
+    """an execute_once call executed more code fragments than any finite chart/history needs"""
+
+
+RUNAWAYS = []
+
+
+class GuardedList(list):
+    """the probe log; refuses to grow beyond LIMIT entries so that a non-terminating macro step
+    becomes a visible exception instead of exhausting memory"""
+    LIMIT = 200000
+
+    def append(self, x):
+        if len(self) >= self.LIMIT:
+            RUNAWAYS.append(1)
+            raise Runaway('more than %d code fragments executed' % self.LIMIT)
+        list.append(self, x)
+
+
 def new_context(extra=None):
-    ctx = {'log': [], 'glog': [], 'gv': {}, 'cv': {}, 'v': 0}
+    ctx = {'log': GuardedList(), 'glog': GuardedList(), 'gv': {}, 'cv': {}, 'v': 0}
     if extra:
         ctx.update(extra)
     return ctx
